@@ -35,7 +35,8 @@ Print Assumptions C06_tz_pattern.
 
 Theorem C06_required_iff_no_default : forall E dl ar m d s, class_schema E dl ar m d = Some s ->
   forall key, In key (get_required (kws_of s)) <->
-              exists f, In f (c_fields d) /\ f_key f = key /\ f_init f = true /\ f_has_default f = false.
+              exists f, In f (c_fields d) /\ f_key f = key /\ f_init f = true /\ f_has_default f = false
+                        /\ (c_omit d && fnullable f) = false.
 Proof. exact required_iff_no_default. Qed.
 Print Assumptions C06_required_iff_no_default.
 
@@ -72,15 +73,18 @@ Theorem C06_init_false_refuted :
   exists s, schema_f E_init dl2020 false false 5 (TData "B") = Some s /\ jvalid pm_any [] 50 s (JObj [("n", JInt 5)]) = false.
 Proof. exact init_false_refuted. Qed.
 
-(* named tuples as dicts / field override inside containers; omit_none and a required nullable field *)
+(* named tuples as dicts / field override inside containers *)
 Theorem C06_nt_override_container_refuted :
   enc_ok 9 E_ovc false false (TData "A") v_ovc j_ovc = true /\
   exists s, schema_f E_ovc dl2020 false false 9 (TData "A") = Some s /\ jvalid pm_any [] 50 s j_ovc = false.
 Proof. exact nt_override_container_refuted. Qed.
-Theorem C06_omit_none_required_refuted :
+(* omit_none: a nullable field without default is dropped for None and not required (fix a5aab21) *)
+Example C06_omit_none_required_example :
+  ty_ok 5 E_omit false false (TData "A") = true /\
   enc_ok 5 E_omit false false (TData "A") (VObj [("x", VNone)]) (JObj []) = true /\
-  exists s, schema_f E_omit dl2020 false false 5 (TData "A") = Some s /\ jvalid pm_any [] 50 s (JObj []) = false.
-Proof. exact omit_none_required_refuted. Qed.
+  exists s, schema_f E_omit dl2020 false false 5 (TData "A") = Some s /\ get_required (kws_of s) = [] /\
+            jvalid pm_any [] 50 s (JObj []) = true.
+Proof. exact omit_none_required_example. Qed.
 
 (* the as_dict decision of the serializer and of the schema builder (kernels K6N) equal the model's nt_mode *)
 Theorem C06_nt_mode_schema : forall (c: bool) (ov: option bool),
